@@ -461,7 +461,9 @@ impl<'a, 'b, CS: ChainStore + VersionbitsIndexer + 'static> BlockTxsVerifier<'a,
             .map(|(_, completed)| completed)
             .cloned()
             .collect();
-        if !ret.is_empty() {
+        // entries computed while script verification was skipped carry no script verdict
+        // (and zero cycles): they must never answer a later full verification
+        if !ret.is_empty() && !skip_script_verify {
             self.update_cache(ret);
         }
 
